@@ -18,6 +18,7 @@ import (
 	"os"
 	"runtime"
 	"sort"
+	"strings"
 	"sync"
 
 	"github.com/iotaledger/hive.go/serializer/v2/serix"
@@ -221,12 +222,28 @@ func forward(st *stats, u *sergen.Universe, si int, s *sergen.Shape, v *sergen.V
 			sergen.ArenaReset()
 		}
 	}
+	rec := func(what string, got, want []byte) replayRec {
+		return replayRec{Dir: "forward", Static: u.Static, USeed: u.Seed, ShapeIdx: si, ValIdx: vi, Validation: validation,
+			Shape: short(s.String(), 600), GoType: short(sergen.Describe(s), 600), Got: short(hex.EncodeToString(got), 600), Want: short(hex.EncodeToString(want), 600), Detail: what}
+	}
 	if pan != nil {
 		st.count("encoder_panics_not_claimed", 1)
 		return nil
 	}
 	if err != nil {
 		st.count("rejected_by_encoder", 1)
+		if sergen.ProvablyValid(s, v) {
+			// the reference encoder can express the value (every length fits its prefix width, uint256 in
+			// range) and all min/max bounds are met, strings are UTF-8, no rule needs re-implementing
+			what := fmt.Sprintf("Encode rejected a value that the documented layout can express and that meets all its bounds: %s; shape %s", short(err.Error(), 200), short(s.String(), 200))
+			ref, _ := sergen.RefEncode(s, v)
+			st.violation("forward:encoder-rejected-representable-value", what, rec(what, nil, ref))
+		}
+		return nil
+	}
+	if !sergen.Representable(s, v) {
+		what := fmt.Sprintf("Encode accepted (%d bytes) a value the documented layout cannot express (a length beyond its prefix width or a uint256 outside [0, 2^256)); shape %s", len(b), short(s.String(), 200))
+		st.violation("forward:encoder-accepted-unrepresentable-value", what, rec(what, b, nil))
 		return nil
 	}
 	ref, marks := sergen.RefEncode(s, v)
@@ -303,6 +320,16 @@ func mutants(b []byte, marks []sergen.Mark, rng *rand.Rand, codes []uint32) []mu
 	}
 	clone := func() []byte { return append([]byte{}, b...) }
 	const capVal = 2000
+	if len(marks) > 600 {
+		// huge collections (boundary lengths): aim at the outermost structure only
+		var keep []sergen.Mark
+		for _, m := range marks {
+			if m.Kind != sergen.MElem && len(keep) < 4 {
+				keep = append(keep, m)
+			}
+		}
+		marks = keep
+	}
 	// group element marks by collection
 	elems := map[int][]sergen.Mark{}
 	counts := map[int]sergen.Mark{}
@@ -495,7 +522,14 @@ func hasSaturatedTime(s *sergen.Shape, v *sergen.Val) bool {
 func reverseOne(st *stats, u *sergen.Universe, si int, s *sergen.Shape, vi int, orig []byte, m mutant) {
 	st.count("reverse_candidates", 1)
 	dst := sergen.New(s)
+	in := append([]byte{}, m.b...)
 	n, err, pan := safeDecode(u.API, s, m.b, dst.Interface(), true)
+	if !bytes.Equal(in, m.b) {
+		what := fmt.Sprintf("validated Decode changed the %d input bytes it was given (first difference at offset %d)", len(in), firstDiff(in, m.b))
+		st.violation("reverse:decode-mutated-input", what, replayRec{Dir: "reverse", Static: u.Static, USeed: u.Seed, ShapeIdx: si, ValIdx: vi, Validation: true, Mutant: hex.EncodeToString(in),
+			Shape: short(s.String(), 600), GoType: short(sergen.Describe(s), 600), Mutation: m.kind, Detail: what})
+		copy(m.b, in)
+	}
 	if pan != nil {
 		st.count("decoder_panics_not_claimed_here", 1)
 		st.note("decpanic", fmt.Sprintf("observation (C02's subject, not C03's): Decode panicked on a mutated encoding: %v", pan))
@@ -633,13 +667,33 @@ func implCodes(u *sergen.Universe) []uint32 {
 }
 
 func exercise(st *stats, u *sergen.Universe, si int, s *sergen.Shape, nVals int, reverse bool) {
-	vals := sergen.Values(s, valRng(u.Seed, si), nVals)
+	vals := sergen.ValuesOf(u, s, valRng(u.Seed, si), nVals)
 	codes := implCodes(u)
 	anyAccepted := false
 	for vi, v := range vals {
+		if label := u.FixedLabel[v]; label != "" {
+			st.dist("boundary_values", label)
+			parts := strings.SplitN(label, "/", 4)
+			switch parts[0] {
+			case "len":
+				st.count("boundary_length_cases/"+parts[2], 2)
+			case "uint256":
+				st.count("boundary_uint256_cases", 2)
+			case "time":
+				st.count("boundary_time_cases", 2)
+			}
+		}
 		for _, validation := range []bool{false, true} {
 			b := forward(st, u, si, s, v, vi, validation)
 			if b == nil {
+				// Encode did not accept the value. If the documented layout can express it, its reference
+				// encoding is still a legitimate byte string to show to the validating decoder: whatever
+				// Decode accepts must re-encode to the same bytes.
+				if reverse && validation && sergen.Representable(s, v) {
+					ref, _ := sergen.RefEncode(s, v)
+					st.count("reverse_reference_encodings_of_rejected_values", 1)
+					reverseOne(st, u, si, s, vi, ref, mutant{b: ref, kind: "reference-encoding"})
+				}
 				continue
 			}
 			if vi > 0 {
@@ -697,6 +751,14 @@ func run(c *vf.Ctx) {
 		}
 		a.merge(st)
 	}
+	{
+		u := sergen.NewBoundary()
+		vf.Parallel(len(u.Shapes), workers, func(si int) {
+			st := newStats()
+			exercise(st, u, si, u.Shapes[si], 0, true)
+			a.merge(st)
+		})
+	}
 	vf.Parallel(nUni, workers, func(i int) {
 		st := newStats()
 		// even universes: full grammar, forward only where unsafe; odd: allocation-safe grammar for the reverse direction
@@ -724,6 +786,13 @@ func run(c *vf.Ctx) {
 	for _, r := range []string{"map", "lexical", "nodup", "bounds", "plain"} {
 		c.Require("accepted_mutants/rule="+r, c.Pick(500, 10000))
 	}
+	for _, w := range []string{"lp8", "lp16", "lp32"} {
+		c.Require("boundary_length_cases/"+w, 40)
+	}
+	c.Require("boundary_uint256_cases", 80)
+	c.Require("boundary_time_cases", 100)
+	c.Require("boundary_values", 200)
+	c.Require("reverse_reference_encodings_of_rejected_values", c.Pick(1000, 20000))
 	c.Require("arena_backed_custom_values_encoded", c.Pick(2000, 20000))
 	c.Require("arena_backed_custom_map_keys_encoded", c.Pick(500, 5000))
 	c.Require("shapes_with_map_lexical_ordering_explicitly_false", c.Pick(60, 1200))
@@ -744,8 +813,12 @@ func replay(c *vf.Ctx) {
 	}
 	st := newStats()
 	var u *sergen.Universe
-	if r.Static {
-		u = sergen.NewStatic()
+	if r.USeed < 0 || r.Static {
+		id := r.USeed
+		if id >= 0 {
+			id = -1
+		}
+		u = sergen.ByID(id)
 	} else {
 		// the options are a function of the universe index only through the seed parity rule
 		// used in run(); both variants are tried until the recorded Go type matches
@@ -757,7 +830,7 @@ func replay(c *vf.Ctx) {
 		}
 	}
 	s := u.Shapes[r.ShapeIdx]
-	vals := sergen.Values(s, valRng(u.Seed, r.ShapeIdx), r.ValIdx+1)
+	vals := sergen.ValuesOf(u, s, valRng(u.Seed, r.ShapeIdx), r.ValIdx+1)
 	v := vals[r.ValIdx]
 	switch r.Dir {
 	case "forward":
